@@ -112,7 +112,7 @@ static void check_large_result(u8* r, u64 size, u64 alignment) {
 int main(void) {
   vp_set_initialized();
 #ifdef PTRHOOKS
-  BASE = vp_nd(); __CPROVER_assume(BASE % 64 == 0 && BASE >= (1ull << 20) && BASE < (1ull << 62));
+  BASE = vp_nd(); __CPROVER_assume(BASE % 64 == 0 && BASE >= (1ull << 62) && BASE < (1ull << 62) + (1ull << 61));   /* disjoint from cbmc object addresses (object id << 52, small ids) and from native addresses (< 2^47) */
 #endif
   u64 size = vp_nd(), lg = vp_nd();
 #ifdef SIZE_LT
